@@ -6,7 +6,7 @@ PROP_MODULES = ['QRV.Props.C05', 'QRV.Props.C05Ext', 'QRV.Props.C05TooLarge', 'Q
 RULE = ('for every (version, level) row and every mode: payloads of max-1, max, max+1 characters of that row\'s capacity (digits, alphanumerics, bytes, kanji) and mixed-mode payloads '
         'straddling it, x kanji on/off x rMQR priorities {area, height, width}. Oracle: the returned version holds the returned segments by the standard\'s exact bit lengths (kanji per '
         'character), no smaller admissible version (QR: lower number; Micro QR: lower admissible version; rMQR: smaller area / height / width) holds them, and "too large" is answered '
-        'only when the payload does not fit as one byte segment in the largest symbol of that level. Also run on the Lean model. non-trivial = payload within 2 characters of a row capacity')
+        'only when the payload does not fit as one byte segment in the largest symbol of that level. Also run on the Lean model. non-trivial: every payload is generated AT a capacity boundary (max-1 / max / max+1 characters of a row, a mixed list filling a row, the byte capacity of the largest symbol with cost-rounding periods), so all count; distinct = distinct (package, level, kanji, priority, payload)')
 TRUSTED = [
     'Lean 4.33.0 kernel; axioms per theorem as listed',
     'reference bit lengths and capacities of checks/ref*.py (rMQR capacities and count widths from the regenerated tables)',
